@@ -703,11 +703,34 @@ Fixpoint class_any (cls : dset -> dset -> bool) (d : dset) (os : list dset) : bo
 
 (* extend / merge: 4 = fill rows for an object with references; 5 = all values as specified but an
    object that was shared is now two equal objects; 6 / 7 = nested collections (see above) *)
+(* the fields that have nothing to do with references (no attributes, nobody's attribute) are as specified *)
+Definition plain_fields_match (d : dset) (n : nat) (flds : list (string * nat * nat)) (objs : list (nat * oobj)) : bool :=
+  let targets := flat_map (fun x => map snd (orefs (snd x))) (store d) in
+  Nat.eqb (num_obs d) n
+  && Nat.eqb (length (fields d)) (length flds)
+  && forallb (fun f => match slookup (fst (fst f)) (fields d) with
+                       | Some mo =>
+                           match lookup mo (store d) with
+                           | Some a => if Nat.eqb (length (orefs a)) 0 && negb (existsb (Nat.eqb mo) targets)
+                                       then Nat.eqb (snd f) n && val_iso 8 (store d) objs mo (snd (fst f))
+                                       else true
+                           | None => false
+                           end
+                       | None => false end) flds.
+
 Definition classify_extend (d : dset) (os : list dset) (s : option string) (b : obs) : Z :=
+  let refs_class :=
+    if attr_fill_any d os then
+      match b, merge all_off d os s with
+      | OState n flds objs, Some d' => if plain_fields_match d' n flds objs then 4%Z else 1%Z
+      | ORaise, _ => 4%Z
+      | _, _ => 1%Z
+      end
+    else 1%Z in
   let other_classes :=
     if class_any nested_pad_class d os then 6%Z
     else if class_any nested_drop_class d os then 7%Z
-    else if attr_fill_any d os then 4%Z else 1%Z in
+    else refs_class in
   match b, merge all_off d os s with
   | OState n flds objs, Some d' => if match_values d' n flds objs then 5%Z else other_classes
   | _, _ => other_classes
